@@ -57,7 +57,7 @@ type optVariant struct {
 
 func drawOptions(t *core.Tape) optVariant {
 	ov := drawLuaOptions(t)
-	ov.entry = t.Choose(6)
+	ov.entry = t.Choose(7)
 	ov.junk = []int{0, 0, 1, 3}[t.Choose(4)]
 	ov.name = fmt.Sprintf("%s/entry%d/junk%d", ov.name, ov.entry, ov.junk)
 	return ov
@@ -94,6 +94,9 @@ type runOut struct {
 // (set per run; workers are single-threaded).
 var reattachOK bool
 
+// curSrc: the text of the current run's program (entry style 6 runs it through DoString)
+var curSrc string
+
 func setReattachOK(prog *ir.Program) {
 	reattachOK = true
 	for f := range prog.Features {
@@ -114,6 +117,9 @@ func execVM(proto *lua.FunctionProto, ov optVariant, kind int, at int64, maxStep
 	}
 	h := hostapi.NewHost(hostapi.Options{LuaOptions: ov.o, Kind: kind, At: at, MaxSteps: maxSteps, WithContext: withCtx, ReattachAtHostCall: reattach})
 	h.Entry, h.EntryJunk = ov.entry, ov.junk
+	if ov.entry == 6 {
+		h.Source = curSrc
+	}
 	out := h.RunProto(proto)
 	r := &runOut{trace: h.Trace, out: out, h: h, viol: h.Violations}
 	r.hash = model.HashTrace(h.Trace, out.TopError)
@@ -215,6 +221,7 @@ func (e *Engine) Run(t *core.Tape, cfg *core.Config, st *core.Stats) *core.Viola
 		return core.Violationf("rejects-valid", "generated program does not compile: %v\n%s", err, src)
 	}
 	setReattachOK(prog)
+	curSrc = src
 	for f, n := range prog.Features {
 		st.ProbeN("feature_"+f, n)
 	}
@@ -497,6 +504,7 @@ func DebugFault(profile string, draws []uint32, aux []int64) {
 	lay := ir.DrawLayout(t)
 	ov := drawOptions(t)
 	src := ir.Render(prog, lay).Source
+	curSrc = src
 	proto, err := hostapi.CompileFromFile(src) // through LoadFile behind a '#' line when the text has a header line
 	if err != nil {
 		fmt.Println("compile error:", err)
